@@ -1,8 +1,269 @@
-import AlgoVerif.Common
-/-! Line-protocol component for C11 — not built yet. -/
-namespace AlgoVerif.C11.Driver
+import AlgoVerif.Model.C11
+import AlgoVerif.Spec.C11
+/-!
+Line-protocol component for C11.
 
-def runCase (_hdr : List String) (ops : List String) : List String :=
-  ops.map fun _ => "bad-case"
+```
+# case n comp=lr
+terms a b …            -> ok           (grammar lines, `Model/GrammarCore`)
+nonterms S A …         -> ok
+start S                -> ok
+prod S : a S           -> ok
+prec left + -          -> ok           (one precedence level per line, earlier = binds tighter; a production
+prec right [E:E,E]     -> ok            handle is written `[Head:Sym,Sym,…]`)
+build slr|lalr|lr1     -> ok table <summary> | ok conflict <summary> | ok badprec | ok order-dependent | panic | hang
+dump slr|lalr|lr1      -> ok <item sets of every state, in state order>
+check slr|lalr|lr1     -> ok valid | ok invalid <reason>        (the executable validator `Spec.tableOK`)
+parse <kind> a b c     -> ok accept <productions in the order they were emitted> | ok reject <token index> | hang
+ast <kind> a b c       -> ok ast <bracketed tree> | ok reject <token index> | hang
+resolve a | s3 r[E:E,+,E] acc   -> ok <action> | ok error | panic     (`resolveConflict`, actions in iteration order)
+compare a | x y        -> ok 1 | ok -1 | ok 0 | ok error             (`PrecedenceLevels.Compare`)
+climb id + id * id     -> ok <bracketed tree>                        (the precedence-climbing reference of the Spec)
+```
+State numbers are the implementation's (`BuildStateMap` order), not a renumbering.
+-/
+namespace AlgoVerif.C11.Driver
+open AlgoVerif AlgoVerif.Gram AlgoVerif.C11
+
+def tname (t : String) : String := if t = endmarker then "$" else t
+
+def showProd (p : Pr) : String := p.head ++ "→" ++ ".".intercalate (p.body.map symName)
+
+def showAction : Action → String
+  | .shift s => s!"s{s}"
+  | .reduce p => "r(" ++ showProd p ++ ")"
+  | .accept => "acc"
+
+def sortStrings (l : List String) : List String := sortBy cmpStr l
+
+def showCell (acts : List Action) : String := "/".intercalate (sortStrings (acts.map showAction))
+
+def showRow (T : Table) (i : Nat) : String :=
+  let acts := (T.actions.filter (fun e => e.1.1 == (i : Int) && !e.2.isEmpty)).map
+    fun e => tname e.1.2 ++ "=" ++ showCell e.2
+  let gts := (T.gotos.filter (fun e => e.1.1 == (i : Int))).map fun e => e.1.2 ++ "=>" ++ toString e.2
+  s!"{i}:" ++ ",".intercalate (sortStrings acts ++ sortStrings gts)
+
+def showTable (T : Table) : String :=
+  s!"n={T.nstates} " ++ " ".intercalate ((List.range T.nstates).map (showRow T))
+
+def showItem (i : Item) : String :=
+  let b := i.prod.body.map symName
+  i.prod.head ++ "→" ++ ".".intercalate (b.take i.dot) ++ "•" ++ ".".intercalate (b.drop i.dot) ++
+    (match i.la with | some a => "," ++ tname a | none => "")
+
+def showStates (S : StateMap) : String :=
+  " ".intercalate ((S.zipIdx).map fun (I, s) => s!"{s}:" ++ ";".intercalate (I.map showItem))
+
+partial def showTree : Tree → String
+  | .leaf t => tname t
+  | .node p ks => "(" ++ " ".intercalate (p.head :: ks.map showTree) ++ ")"
+  | .nil => "nil"
+
+/-! ### parsing the op arguments -/
+
+def parseKind : String → Option Kind
+  | "slr" => some .slr
+  | "lalr" => some .lalr
+  | "lr1" => some .lr1
+  | _ => none
+
+def mkSym (g : SGrammar) (w : String) : Sy := if g.nonterms.contains w then Sym.nonterm w else Sym.term w
+
+def dropS (n : Nat) (w : String) : String := String.ofList (w.toList.drop n)
+
+def dropEndS (n : Nat) (w : String) : String := String.ofList (w.toList.take (w.toList.length - n))
+
+/-- `[Head:X,Y]` -/
+def parseProdWord (g : SGrammar) (w : String) : Option Pr :=
+  if w.startsWith "[" && w.endsWith "]" then
+    let inner := dropEndS 1 (dropS 1 w)
+    match inner.splitOn ":" with
+    | [h, b] => some { head := h, body := ((b.splitOn ",").filter (· ≠ "")).map (mkSym g) }
+    | _ => none
+  else none
+
+def parseHandle (g : SGrammar) (w : String) : Handle :=
+  match parseProdWord g w with
+  | some p => .prod p
+  | none => .term w
+
+def parseAssoc : String → Option Assoc
+  | "left" => some .left
+  | "right" => some .right
+  | "none" => some .none
+  | _ => none
+
+def parseAction (g : SGrammar) (w : String) : Option Action :=
+  if w = "acc" then some .accept
+  else if w.startsWith "s" then (dropS 1 w).toInt?.map Action.shift
+  else if w.startsWith "r" then (parseProdWord g (dropS 1 w)).map Action.reduce
+  else none
+
+/-! ### builds -/
+
+/-- all permutations (cells have at most 5 actions when this is called) -/
+def perms {α} : List α → List (List α)
+  | [] => [[]]
+  | x :: xs => (perms xs).flatMap fun p => (List.range (p.length + 1)).map fun i => p.take i ++ [x] ++ p.drop i
+
+inductive CellRes where
+  | one (a : Option Action)        -- the same for every iteration order (`none` = error)
+  | orderDependent
+  | panic
+
+def resolveCell (ls : List Level) (a : String) (acts : List Action) : CellRes :=
+  if acts.length > 5 then .orderDependent
+  else
+    let rs := (perms acts).map fun p => resolveConflict ls a p
+    match rs with
+    | [] => .panic
+    | r :: rest =>
+      if rest.all (fun x => x = r) then
+        match r with
+        | .ok x => .one x
+        | _ => .panic
+      else .orderDependent
+
+structure BuiltT where
+  built : Built
+  final : Table          -- after ResolveConflicts
+  usable : Bool          -- false after `order-dependent`
+
+/-- `BuildParsingTable(G, precedences)` up to the iteration order of `resolveConflict` -/
+def runBuild (k : Kind) (g : SGrammar) (ls : List Level) : String × Option BuiltT :=
+  match build k g (defaultFuel g) with
+  | .panic => ("panic", none)
+  | .diverge => ("hang", none)
+  | .ok b =>
+    if !levelsOK ls then ("ok badprec", none)
+    else
+      let step := fun (acc : Table × Bool × Bool × Bool) (e : (Int × String) × List Action) =>
+        -- acc = (table, conflict?, orderDependent?, panic?)
+        if e.2.length ≤ 1 then acc
+        else match resolveCell ls e.1.2 e.2 with
+          | .one (some act) => (acc.1.setCell e.1.1 e.1.2 [act], acc.2)
+          | .one none => (acc.1, true, acc.2.2)
+          | .orderDependent => (acc.1, acc.2.1, true, acc.2.2.2)
+          | .panic => (acc.1, acc.2.1, acc.2.2.1, true)
+      let (T, conflict, od, pn) := b.table.actions.foldl step (b.table, false, false, false)
+      if pn then ("panic", none)
+      else if od then ("ok order-dependent", some { built := b, final := T, usable := false })
+      else if conflict then ("ok conflict " ++ showTable T, some { built := b, final := T, usable := true })
+      else ("ok table " ++ showTable T, some { built := b, final := T, usable := true })
+
+structure St where
+  g : SGrammar := SGrammar.empty
+  levels : List Level := []
+  slr : Option BuiltT := none
+  lalr : Option BuiltT := none
+  lr1 : Option BuiltT := none
+
+def St.get (st : St) : Kind → Option BuiltT
+  | .slr => st.slr
+  | .lalr => st.lalr
+  | .lr1 => st.lr1
+
+def St.set (st : St) (k : Kind) (b : Option BuiltT) : St :=
+  match k with
+  | .slr => { st with slr := b }
+  | .lalr => { st with lalr := b }
+  | .lr1 => { st with lr1 := b }
+
+def parseFuel : Nat := 200000
+
+def runParse (st : St) (k : Kind) (w : List String) (ast : Bool) : String :=
+  match st.get k with
+  | some bt =>
+    if !bt.usable then "ok no-table"
+    else match parse bt.final.toTbl parseFuel w with
+      | .ok (.accept ps root) =>
+        if ast then "ok ast " ++ showTree root else "ok accept " ++ ";".intercalate (ps.map showProd)
+      | .ok (.reject k) => s!"ok reject {k}"
+      | .panic => "panic"
+      | .diverge => "hang"
+  | none => "ok no-table"
+
+def splitBar (ws : List String) : List String × List String :=
+  (ws.takeWhile (· ≠ "|"), (ws.dropWhile (· ≠ "|")).drop 1)
+
+def runCase (_hdr : List String) (ops : List String) : List String := Id.run do
+  let mut st : St := {}
+  let mut dead := false
+  let mut out : Array String := #[]
+  for line in ops do
+    if dead then out := out.push "skip"; continue
+    let (g', used) := parseGrammarLine st.g line
+    if used then
+      st := { st with g := g' }
+      out := out.push "ok"
+      continue
+    match words line with
+    | "prec" :: a :: hs =>
+      match parseAssoc a with
+      | some a =>
+        st := { st with levels := st.levels ++ [{ assoc := a, handles := hs.map (parseHandle st.g) }] }
+        out := out.push "ok"
+      | none => out := out.push "bad-op"
+    | ["build", k] =>
+      match parseKind k with
+      | some k =>
+        let (s, b) := runBuild k st.g st.levels
+        st := st.set k b
+        if s = "panic" || s = "hang" then dead := true
+        out := out.push s
+      | none => out := out.push "bad-op"
+    | ["dump", k] =>
+      match (parseKind k).bind st.get with
+      | some bt => out := out.push ("ok " ++ showStates bt.built.states)
+      | none => out := out.push "ok no-table"
+    | ["check", k] =>
+      match (parseKind k).bind st.get with
+      | some bt =>
+        match Spec.tableCheck st.g bt.built with
+        | none => out := out.push "ok valid"
+        | some why => out := out.push ("ok invalid " ++ why)
+      | none => out := out.push "ok no-table"
+    | "parse" :: k :: w =>
+      match parseKind k with
+      | some k =>
+        let s := runParse st k w false
+        if s = "panic" || s = "hang" then dead := true
+        out := out.push s
+      | none => out := out.push "bad-op"
+    | "ast" :: k :: w =>
+      match parseKind k with
+      | some k =>
+        let s := runParse st k w true
+        if s = "panic" || s = "hang" then dead := true
+        out := out.push s
+      | none => out := out.push "bad-op"
+    | "resolve" :: rest =>
+      let (l, r) := splitBar rest
+      match l, r.mapM (parseAction st.g) with
+      | [a], some acts =>
+        match resolveConflict st.levels a acts with
+        | .ok (some act) => out := out.push ("ok " ++ showAction act)
+        | .ok none => out := out.push "ok error"
+        | .panic => dead := true; out := out.push "panic"
+        | .diverge => dead := true; out := out.push "hang"
+      | _, _ => out := out.push "bad-op"
+    | "compare" :: rest =>
+      let (l, r) := splitBar rest
+      match l, r.mapM (parseAction st.g) with
+      | [a], some [x, y] =>
+        match handleOfAction a x, handleOfAction a y with
+        | some hx, some hy =>
+          match compareAH st.levels (x, hx) (y, hy) with
+          | some c => out := out.push s!"ok {c}"
+          | none => out := out.push "ok error"
+        | _, _ => out := out.push "bad-op"
+      | _, _ => out := out.push "bad-op"
+    | "climb" :: w =>
+      match Spec.climb st.levels w with
+      | some t => out := out.push ("ok " ++ Spec.showExpr t)
+      | none => out := out.push "ok reject"
+    | _ => out := out.push "bad-op"
+  return out.toList
 
 end AlgoVerif.C11.Driver
